@@ -257,7 +257,7 @@ def real_conf_rel(cfg, inp):
         sc = [float(x) for x in inp["collections"][0]["scores"]]
         old = (C.CONFIDENCE_CHUNK_SIZE, U.MERGE_SORT_CHUNK_SIZE, C.peps_from_scores)
         C.CONFIDENCE_CHUNK_SIZE, U.MERGE_SORT_CHUNK_SIZE = cc, mc
-        C.peps_from_scores = lambda s, t, a="qvality": np.full(len(s), 0.5)
+        C.peps_from_scores = __import__("checks.conflib", fromlist=["x"]).real_pep_stub
         orig_save = C._save_sorted_metadata_chunks
         workers = 1
         if force:
